@@ -45,5 +45,10 @@ CLAIMED = {
         "A-NET: socket.recv_into / StreamReader.readexactly behave as stated; a peer that neither sends nor closes is outside the property. _prepare_pdu and _process_response are used through their contracts (C13, C16).",
         "DESIGN 5 C14",
     ),
+    "C15": (
+        "Deductive proof of SyncRpcClient.bind and AsyncRpcClient.bind against typestate (ghost monitor) contracts, for an arbitrary server and provider: the provider's first step gets no token and later steps get exactly the token of the latest reply (b'' when it has none), only while the context reports not complete, and only after the previous non-empty output was sent; every PDU carries the token just produced, with auth_len = its size, level PKT_PRIVACY, a Bind first and AlterContext afterwards, the header-sign flag as negotiated so far; on return all produced tokens were sent, the first ack is returned, and _sign_header holds iff every reply advertised PFC_SUPPORT_HEADER_SIGN. The leg loop is handled by an inductive invariant over the monitor (any number of legs). _process_bind_result is proved to return only if the desired context id was ACCEPTED (else ValueError); BindNak/Fault/unexpected types are errors by the _process_response contract (C16).",
+        "Partial correctness for the leg loop (its termination depends on the external provider). B: presentation context lists of length 1..2 and result lists 0..3 in _process_bind_result. A-SPNEGO (step/complete are arbitrary); _send_pdu is used through a monitor contract, its own behaviour is C14/C16. A-PY; run_in_executor(func, *args) awaits func(*args).",
+        "DESIGN 5 C15",
+    ),
 }
 NOT_CLAIMED = {}
